@@ -232,6 +232,14 @@ impl Evidence {
             *self.counters.entry(key).or_insert(0) += 1;
         }
     }
+    /// Record the violating case itself as a sample (evidence must hold a sample even when
+    /// the run stopped at its first case).
+    pub fn violation_sample(&mut self, v: &Value) {
+        let mut m = Map::new();
+        m.insert("class".into(), json!("violation"));
+        m.insert("case".into(), v.clone());
+        self.samples.insert(0, Value::Object(m));
+    }
     pub fn distinct_nontrivial(&self) -> u64 {
         self.nontrivial.len() as u64
     }
